@@ -340,6 +340,37 @@ for _k, _v in ADDED2.items():
     if _k in CHECKS:
         CHECKS[_k]["text"] = CHECKS[_k]["text"] + _v
 
+# what seed rounds 10-12 added (DESIGN.md 8.15-8.17): the public surface no earlier seed had touched
+ADDED3 = {
+    "C02": " Numbers handed over as IntEnum members / int-subclass instances; copy, deepcopy and pickle round trips of the "
+           "constructed objects.",
+    "C04": " The legacy names (Short, Group, Broadcast, BroadcastUnaddressed); clones of address and instance objects.",
+    "C05": " pack_len at every length the value fits in; the caller edits the list as_byte_sequence returned; clones of "
+           "frames are equal and independent.",
+    "C06": " Reading every public attribute leaves response and caller's frame unchanged; missing vs garbled told apart by "
+           "the exception class; enum members / falsy values are no frames; clones of responses.",
+    "C07": " Units whose stored address cannot be changed; the caller's collection of permitted addresses is not consumed.",
+    "C09": " A generated family of 192 user declarations per seed (harness/ref_memory.family) through the read judges.",
+    "C10": " The same family through the write judges; write_raw options by position.",
+    "C11": " The same family decoded, first-use orders in spawned interpreters; same-named classes in the declaration rules.",
+    "C12": " Application subclasses of the event classes (spawned interpreters); retry follows the frame, not a renumbered "
+           "address object; initial= tables with a default hook.",
+    "C13": " connect(scan_dev_inst=True) on a populated bus records into the table the program handed over.",
+    "C15": " Sequences yielding their own ENABLE DEVICE TYPE; commands of an application-defined device type; one scenario "
+           "in three with the library's logging at its most verbose level (harness/verbose.py; also C16, C17, C20).",
+    "C16": " Two threads on one daliserver client; ATX histories with foreign lines on one driver object; an orphaned answer "
+           "during a no-answer exchange; LUBA events laid out as the configured event filter prescribes.",
+    "C17": " exceptions= said at the call; other status listeners (one-shot, failing) before the monitor; node back but "
+           "writes dead; a second connect() on a serial driver after a first that was cut short.",
+    "C18": " Legacy hasseb send() over report histories; sequence numbers after a send its caller gave up on.",
+    "C19": " Receivers attached to a transport exposing the serial port; every LUBA command code with a wrong checksum; "
+           "every stream also with verbose library logging.",
+    "C20": " Subscribers that unregister themselves in their callback; arbitrary interval fields in Tridonic reports.",
+}
+for _k, _v in ADDED3.items():
+    if _k in CHECKS:
+        CHECKS[_k]["text"] = CHECKS[_k]["text"] + _v
+
 
 def main():
     checks = []
